@@ -319,6 +319,19 @@ pub fn run(out: &mut Out, tier: &str, rng: &mut Rng) {
         out.case("site", json!({"rty": j, "site": "param", "mode": "ts", "mappings": {}}), json!({"gen": "prims"}));
         out.case("site", json!({"rty": j, "site": "ret", "mode": "ts", "mappings": {}}), json!({"gen": "prims"}));
     }
+    // 2b. user-defined types named like well-known std / TypeScript types: they are ordinary named types
+    for name in ["Path", "PathBuf", "Duration", "Value", "Date", "Error", "Record", "Array", "Map", "Set", "Promise", "Char", "Str", "Number", "Boolean", "Any", "Unknown", "Void", "Null"] {
+        let n = RTy::Named(name.to_string());
+        let b = |t: &RTy| Box::new(t.clone());
+        for t in [n.clone(), RTy::Vec(b(&n)), RTy::Opt(b(&n)), RTy::HMap(Box::new(RTy::Prim("String".into())), b(&n)), RTy::Res2(b(&n), Box::new(RTy::Prim("String".into())))] {
+            for site in SITES {
+                out.case("site", json!({"rty": t.to_json(), "site": site, "mode": "ts", "mappings": {}}), json!({"gen": "stdnames"}));
+                if *site == "param" || *site == "field" {
+                    out.case("site", json!({"rty": t.to_json(), "site": site, "mode": "zod", "mappings": {}}), json!({"gen": "stdnames"}));
+                }
+            }
+        }
+    }
     // 3. random deeper types, with and without mappings
     let n = if tier == "thorough" { 30000 } else { 2500 };
     for i in 0..n {
